@@ -3,6 +3,7 @@ import MosnVerif.Lemmas.Correlate
 import MosnVerif.Model.StreamTableSpec
 import MosnVerif.Lemmas.DispatchCtx
 import MosnVerif.Model.DispatchCtxSpec
+import MosnVerif.Lemmas.BufReuse
 /-!
 # C02 — request/response correlation on an xprotocol client stream connection (property theorems only)
 
@@ -403,5 +404,79 @@ example : views requestOnlyShape true (run requestOnlyShape true [[o3], [q1]]) =
     ((run requestOnlyShape true [[o3], [q1]]).delivered.map (·.ctx)) = [0, 0] := by decide
 
 end DispatchContext
+
+/-! ## pooled per-request buffers (`httpBufferCtx.Reset`, Model/BufReuse.lean)
+
+`Gen.BufReset` is regenerated from the `Reset` methods of the pooled buffer contexts: the fields of each buffers struct
+and what `Reset` clears (the whole struct, a whole field, or only a sub-field such as `.Header`). -/
+section BufferReuse
+open MosnVerif.Model.BufReuse MosnVerif.Gen.BufReset
+
+/-- every regenerated `Reset` (HTTP/1 stream buffers, xprotocol stream buffers, proxy buffers, bolt / boltv2 codec
+buffers) resets EVERY field of its buffers struct as a whole; the HTTP/1 struct has the four messages of the model -/
+theorem reset_tables_complete : (all.all fullReset) = true ∧ covers http = true := by decide
+
+/-- **clean_reuse**: for EVERY sequence of exchanges (forwarded or not, with and without request body, upstream answer
+with / without body, HEAD, local reply, direct response with / without body), EVERY initial pool of clean objects and
+EVERY hand-out order of the pool (`pick` per exchange: any pooled object or a new one), what the client and the
+upstream receive for exchange k is what they would receive from a fresh object, and it carries only tokens of
+exchange k: planned status, own header tokens, exactly the planned body (none for a body-less answer), and the upstream
+sees the request with exactly its own body. -/
+theorem clean_reuse (xs : List (Ex × Nat)) (pool : List Obj) (hp : ∀ o ∈ pool, o = Obj.zero) :
+    run http pool xs = xs.map (fun x => (serve Obj.zero x.1).2) ∧
+    ∀ x ∈ xs, ownOut x.1 (serve Obj.zero x.1).2 = true :=
+  ⟨run_zero (by decide) reset_tables_complete.2 xs pool hp, fun x _ => serve_zero_own x.1⟩
+
+/-- the same for any buffer context whose regenerated table is complete (the statement the other contexts instantiate) -/
+theorem clean_reuse_of_complete (c : BufCtx) (hf : fullReset c = true) (hc : covers c = true)
+    (xs : List (Ex × Nat)) (pool : List Obj) (hp : ∀ o ∈ pool, o = Obj.zero) :
+    ∀ (i : Nat) (o : Out), (run c pool xs)[i]? = some o → ∃ x : Ex × Nat, xs[i]? = some x ∧ ownOut x.1 o = true := by
+  intro i o h
+  rw [run_zero hf hc xs pool hp, List.getElem?_map] at h
+  cases hx : xs[i]? with
+  | none => simp [hx] at h
+  | some x =>
+    simp only [hx, Option.map_some, Option.some.injEq] at h
+    exact ⟨x, rfl, h ▸ serve_zero_own x.1⟩
+
+/-- the executable predicate of the `h1b` cases holds of the model's output -/
+theorem h1b_spec_holds_on_model (exs : List Ex) :
+    ∀ o ∈ (run http [] (exs.map (fun e => (e, 0)))).zip exs, ownOut o.2 o.1 = true := by
+  intro o ho
+  rw [run_zero (by decide) reset_tables_complete.2 _ [] (by intro _ h; cases h)] at ho
+  simp only [List.map_map] at ho
+  have : ∀ (l : List Ex) (o : Out × Ex), o ∈ (l.map ((fun x : Ex × Nat => (serve Obj.zero x.1).2) ∘ fun e => (e, 0))).zip l →
+      ownOut o.2 o.1 = true := by
+    intro l
+    induction l with
+    | nil => intro o h; cases h
+    | cons e es ih =>
+      intro o h
+      simp only [List.map_cons, List.zip_cons_cons, List.mem_cons] at h
+      rcases h with h | h
+      · rw [h]; exact serve_zero_own e
+      · exact ih o h
+  exact this exs o ho
+
+/-! ### non-vacuity, and what a partial Reset does -/
+def exUp (k : Nat) (body : Bool) : Ex := ⟨k, true, false, false, some body, none, 200⟩
+def exNoRoute (k : Nat) : Ex := ⟨k, false, false, false, none, none, 404⟩
+def exPost (k : Nat) : Ex := ⟨k, true, false, true, some false, none, 200⟩
+/-- the seeded change: only the header of serverResponse is reset -/
+def partialHttp : BufCtx := { http with clears := http.clears.map (fun p => if p.1 == "serverResponse" then (p.1, ["Header"]) else p) }
+example : fullReset partialHttp = false := by decide
+-- an answer with a body, then a 404 on the recycled object: with the regenerated Reset the 404 has no body ...
+example : (run http [] [(exUp 0 true, 0), (exNoRoute 1, 0)]).map (·.respB) = [["r0"], []] := by decide
+-- ... with the partial Reset it carries the body of exchange 0, and so does a later upstream answer without body
+example : (run partialHttp [] [(exUp 0 true, 0), (exNoRoute 1, 0), (exUp 2 false, 0)]).map (·.respB) = [["r0"], ["r0"], ["r0"]] := by decide
+example : (run partialHttp [] [(exUp 0 true, 0), (exNoRoute 1, 0)]).map (ownOut (exNoRoute 1)) = [false, false] := by decide
+-- a new object instead of the recycled one hides it: the hand-out order matters once Reset is partial
+example : (run partialHttp [] [(exUp 0 true, 0), (exNoRoute 1, 7)]).map (·.respB) = [["r0"], []] := by decide
+-- client side: clientRequest not reset => a later body-less request carries an earlier request's body upstream
+def partialClient : BufCtx := { http with clears := http.clears.filter (fun p => p.1 != "clientRequest") }
+example : ((run partialClient [] [(exPost 0, 0), (exUp 1 false, 0)]).map (·.up)) =
+    [some (["q0"], ["q0"]), some (["q1"], ["q0"])] := by decide
+
+end BufferReuse
 
 end MosnVerif.Props.C02
